@@ -273,7 +273,10 @@ static ListColumn ratio_column = {
 
 static void method_crc_column_print(LHAFileHeader *header)
 {
-	printf("%-5s %04x", header->compress_method, header->crc);
+	// The method name comes straight from the archive; don't trust it.
+
+	safe_printf("%-5s", header->compress_method);
+	printf(" %04x", header->crc);
 }
 
 static ListColumn method_crc_column = {
